@@ -19,7 +19,7 @@ func (c19) Size(tier string) Size {
 	return Size{Batches: 4, Cases: 2000}
 }
 func (c19) Rule() string {
-	return "case = history of 1-80 operations on one SoftCollection: SetType (first, and again later with a wider / narrower / disjoint type), Add (soft or struct-backed resource of the collection's type, a narrower, a wider or a conflicting type; duplicate IDs), Remove (front/middle/end/missing/duplicate ID), AddAttr / AddRel (fresh and duplicate names), Set on a resource after it was added; after EVERY operation Len, At(i) for i in [-2,len+2], Resource(id) and, for every stored resource, Attrs/Rels and Get of every current field are compared with a list model. Non-trivial = history with >= 2 Adds, >= 1 Remove and >= 1 field added after an Add; distinct = hash of the operation list."
+	return "case = history of 1-80 operations on one SoftCollection: SetType (first, and again later with a wider / narrower / disjoint type), Add (soft or struct-backed resource of the collection's type, a narrower, a wider or a conflicting type; duplicate IDs), Remove (front/middle/end/missing/duplicate ID), AddAttr / AddRel (fresh and duplicate names), Set on a resource after it was added; after EVERY operation Len, At(i) for i in [-2,len+2], Resource(id) and, for every stored resource, Attrs/Rels and Get of every current field are compared with a list model. Add of an element of the collection itself (the pointer At returns) appends a second, equal element. Non-trivial = history with >= 2 Adds, >= 1 Remove and >= 1 field added after an Add; distinct = hash of the operation list."
 }
 func (c19) Assumptions() []string {
 	return []string{"each field name has one definition per history for SetType/AddAttr/AddRel (SetType never redefines a name with another kind); conflicting definitions only arrive through Add'ed resources",
@@ -37,15 +37,15 @@ func (c19) Floors(tier string, c map[string]int64) []string {
 }
 
 type c19op struct {
-	Op     string    `json:"op"`
-	Fields []string  `json:"fields,omitempty"` // SetType: field names of the new type
-	Name   string    `json:"name,omitempty"`
-	Res    *ResSpec  `json:"res,omitempty"`
-	ResT   *TypeSpec `json:"res_type,omitempty"`
-	ID     string    `json:"id,omitempty"`
-	OwnType bool     `json:"own_type,omitempty"` // Add: the resource is created from the collection's own *Type
-	Target int       `json:"target,omitempty"` // SetOriginal: which added resource
-	Val    *Val      `json:"val,omitempty"`
+	Op      string    `json:"op"`
+	Fields  []string  `json:"fields,omitempty"` // SetType: field names of the new type
+	Name    string    `json:"name,omitempty"`
+	Res     *ResSpec  `json:"res,omitempty"`
+	ResT    *TypeSpec `json:"res_type,omitempty"`
+	ID      string    `json:"id,omitempty"`
+	OwnType bool      `json:"own_type,omitempty"` // Add: the resource is created from the collection's own *Type
+	Target  int       `json:"target,omitempty"`   // SetOriginal: which added resource
+	Val     *Val      `json:"val,omitempty"`
 }
 
 type c19elem struct {
@@ -96,7 +96,7 @@ func (m c19) Case(c *Ctx, r *RNG) {
 	ids := []string{"1", "2", "3", "a", "b", ""}
 	nAdded := 0
 	for len(ops) < n {
-		switch r.Intn(13) {
+		switch r.Intn(14) {
 		case 0:
 			ops = append(ops, c19op{Op: "SetType", Name: []string{"col", "col2"}[r.Intn(2)], Fields: append(subsetStrings(r, d.names), always...)})
 		case 1, 2, 3, 4:
@@ -149,6 +149,9 @@ func (m c19) Case(c *Ctx, r *RNG) {
 				continue
 			}
 			ops = append(ops, c19op{Op: "SetOriginal", Target: r.Intn(nAdded), Name: d.names[r.Intn(len(d.names))]})
+		case 12:
+			// an element of the collection (the pointer At returns) handed to Add again
+			ops = append(ops, c19op{Op: "AddElement", Target: r.Intn(8)})
 		default:
 			ops = append(ops, c19op{Op: "Read"})
 		}
@@ -366,6 +369,10 @@ func (m c19) run(c *Ctx, d *c19dict, ops []c19op, r *RNG) {
 				originals = append(originals, res)
 				originalT = append(originalT, o.ResT)
 				col.Add(res)
+			case "AddElement":
+				if n := col.Len(); n > 0 {
+					col.Add(col.At(o.Target % n))
+				}
 			case "Remove":
 				col.Remove(o.ID)
 			case "AddAttr":
@@ -452,6 +459,27 @@ func (m c19) run(c *Ctx, d *c19dict, ops []c19op, r *RNG) {
 				c19store(&cur, rl.Name, o.ResT, o.Res, dst)
 			}
 			elems = append(elems, c19elem{rs: dst, unknown: map[string]bool{}})
+		case "AddElement":
+			if n := len(elems); n > 0 {
+				e := elems[o.Target%n]
+				dst := &ResSpec{Type: cur.Name, ID: e.rs.ID, Attrs: map[string]Val{}, ToOne: map[string]string{}, ToMany: map[string][]string{}}
+				for k, v := range e.rs.Attrs {
+					dst.Attrs[k] = v
+				}
+				for k, v := range e.rs.ToOne {
+					dst.ToOne[k] = v
+				}
+				for k, v := range e.rs.ToMany {
+					dst.ToMany[k] = append([]string{}, v...)
+				}
+				unk := map[string]bool{}
+				for k, v := range e.unknown {
+					unk[k] = v
+				}
+				elems = append(elems, c19elem{rs: dst, unknown: unk})
+				nAdd++
+				c.Count("add/own-element")
+			}
 		case "Remove":
 			pos := -1
 			for i, e := range elems {
